@@ -215,6 +215,17 @@ Proof.
   apply elect_loop_at; [exact H|constructor|exact Hdet].
 Qed.
 
+(* the same, stated with the vocabulary of Spec/ only *)
+Theorem elect_top_m_tiebreak_anonymous : forall r r' m (p p' : profile) tb (s : mstate),
+  groups_equiv r r' -> scr s = [] -> wf_profile p -> wf_profile p' -> profile_equiv p p' ->
+  mres_equiv elect_equiv_tb (elect_top_m cand ceqb r m (Some p) tb s)
+                            (elect_top_m cand ceqb r' m (Some p') tb s).
+Proof.
+  intros r r' m p p' tb s Hr Hs Hw Hw' He. apply (mres_at_equiv cand s).
+  apply elect_top_m_at; [exact Hr|]. right. split; [exact Hs|]. cbn [popt_ok].
+  split; [exact Hw|split; [exact Hw'|exact He]].
+Qed.
+
 (* ------------------------------------------------------------------ *)
 (** * One-shot rules, tiebreak rule allowed (deterministic path) *)
 
